@@ -20,15 +20,19 @@ from . import register, T_NN, T_OPS
 class LifeHooks(Hooks):
     def __init__(self):
         self.wrote = set()
+        self.mech = {}  # path -> {("rebind" | "inplace", statement)}
 
     def stored_value(self, ex, path, val, value_node, target, st, store, ctx):
         store["#w"] = store.get("#w", frozenset()) | {path}
+        kind = "inplace" if isinstance(target, ast.Subscript) else "rebind"
+        self.mech.setdefault(path, {})[kind] = st
         if path in ("initialized",):
             return val  # True / False / UNK
         return "data"
 
     def on_inplace(self, ex, path, meth, call, store, local, ctx):
         store["#w"] = store.get("#w", frozenset()) | {path}
+        self.mech.setdefault(path, {})["inplace"] = call
         if path == "initialized":
             v = ex.const_of(call.args[0], local, store, ctx) if call.args else UNK
             store[path] = v
@@ -134,6 +138,17 @@ def actnorm_rule(ctx):
         return [(a, ev) for a, _ in outs]
 
     seen, ntrans = explore([s0], lambda s: EVENTS, step)
+    # ACT-SNAP: a state dict taken earlier shares storage with the live tensors.  If the one-shot
+    # initialisation flips the flag in place while it rebinds the parameters' data, such a snapshot is left
+    # saying "initialised" with untouched parameters: a layer restored from it never initialises.
+    flag_m = hooks.mech.get("initialized", {})
+    par_rebound = [k for k in ("log_scale", "shift") if "rebind" in hooks.mech.get(k, {})]
+    if "inplace" in flag_m and par_rebound and travel["initialized"]:
+        node = flag_m["inplace"]
+        fwd_m = cls.lookup_method("_initialize") or cls.lookup_method("forward")
+        res.fail(Finding("ACT-SNAP", fwd_m.module, fwd_m.qualname, stmt_of(node) or node, "the initialisation sets the `initialized` flag in place (`%s`) but rebinds the data of %s: a state dict taken before the first training batch shares the flag's storage, so it turns into `initialized = True` with the untouched initial parameters -- a layer restored from it never runs its data-dependent initialisation" % (norm_text(node)[:50], ", ".join(par_rebound)), construct="write mechanism of the initialisation"))
+    elif flag_m:
+        res.ok("ActNorm: the flag and the parameters are written by compatible mechanisms (flag %s; log_scale %s; shift %s)" % ("/".join(sorted(flag_m)), "/".join(sorted(hooks.mech.get("log_scale", {}))), "/".join(sorted(hooks.mech.get("shift", {})))))
     for (kind, msg), (fs, evname, node) in sorted(problems.items()):
         trace = trace_to(seen, fs) + [evname]
         fwd = cls.lookup_method("forward")
